@@ -36,7 +36,7 @@ void generate(Rng& r, Workload& w, int tier) {
         for (int i = 0; i < nops; ++i) {
             int64_t t = int64_t(r.below(uint64_t(nt)));
             uint64_t k = r.below(10);
-            int64_t d = mixed ? r.range(1, 3) : d0;
+            int64_t d = mixed ? (r.chance(1, 8) ? 0 : r.range(1, 3)) : d0;   // now and then a request for nothing
             if (k < 3) w.ops.push_back({t, S_SIGNAL1, 0, 0});
             else if (k < 5) w.ops.push_back({t, S_SIGNALN, r.range(0, 3), 0});
             else if (k < 8) w.ops.push_back({t, S_WAIT, d, mixed ? r.range(0, 2) : 0});
@@ -120,7 +120,7 @@ void run_semaphore(const Workload& w, Result& res) {
         SemOp o{int(sim::modn(op[0], nt)), int(sim::modn(op[1], 4)), 0, 0, 0, 0, 0, false};
         int64_t a = op.size() > 2 ? op[2] : 0, b = op.size() > 3 ? op[3] : 0;
         if (o.code == S_SIGNALN) o.a = sim::modn(a, 4);
-        if (o.code == S_WAIT || o.code == S_TRY) { o.a = 1 + sim::modn(a - 1, 3); o.b = sim::modn(b, 3); }
+        if (o.code == S_WAIT || o.code == S_TRY) { o.a = sim::modn(a, 4); o.b = sim::modn(b, 3); }
         ops.push_back(o);
         if (ops.size() >= 16) break;
     }
